@@ -165,7 +165,9 @@ func c14AmountDecode(b []byte) (string, bool, string) {
 		return "amount/decode-panic", false, sprintf("Unmarshal(%x) panicked: %v", b, p)
 	}
 	ref, rerr := RefDecodeAmount(b)
-	if rerr == nil {
+	if rerr == nil && bytes.Equal(RefEncodeAmount(ref), b) {
+		// b is THE documented encoding of ref (canonical): it must decode to it.  Non-canonical buffers (leading zero
+		// bytes in the magnitude, a signed zero) may be accepted or refused.
 		if err != nil || !bigEq(v, ref) {
 			return "amount/decode-value", false, sprintf("Unmarshal(%x) = %v, %v; the documented format says %v", b, v, err, ref)
 		}
